@@ -83,6 +83,26 @@ def run_job(job):
             type(e).__name__, e, traceback.format_exc()[-3000:]), 'wall': time.time() - t0}
 
 
+def run_bounded(job):
+    """Worker: bounded stand-in (native sampling) for one (task, case, seed chunk)."""
+    prop, tname, case, n, seed = job
+    env = dict(os.environ)
+    env['PYTHONPATH'] = '%s:%s' % (repo_root(), VERIF)
+    env['VERIF_REPO'] = repo_root()
+    t0 = time.time()
+    try:
+        out = subprocess.run([NATIVE_PY, '-m', 'pyvc.bounded', prop, tname, json.dumps(case), str(n), str(seed)],
+                             capture_output=True, text=True, env=env, timeout=3000, cwd=VERIF)
+        for line in reversed(out.stdout.strip().split('\n')):
+            if line.startswith('BOUNDED-RESULT '):
+                r = json.loads(line[len('BOUNDED-RESULT '):])
+                r.update(task=tname, case=case, wall=time.time() - t0)
+                return r
+        return {'task': tname, 'case': case, 'error': 'no result: %s' % out.stderr[-1500:], 'wall': time.time() - t0}
+    except Exception as e:
+        return {'task': tname, 'case': case, 'error': repr(e), 'wall': time.time() - t0}
+
+
 def native_replay(prop, tname, case, inputs, known_ids=()):
     """Run the task natively (real code, concrete inputs); returns dict or None."""
     payload = {'property': prop, 'task': tname, 'case': case, 'inputs': inputs}
@@ -139,19 +159,30 @@ def main(argv=None):
         del known[fid]
 
     jobs = []
+    bjobs = []
     for t in mod.TASKS:
         if t.tier == 'thorough' and tier != 'thorough':
             continue
         if args.only and args.only not in t.name:
             continue
         for case in t.cases:
-            jobs.append((prop, t.name, case, timeout_ms, known, None))
-    if not jobs:
+            if t.bounded:
+                n = t.samples[0] if tier == 'quick' else t.samples[1]
+                parts = 4 if tier == 'quick' else 16
+                for k in range(parts):
+                    bjobs.append((prop, t.name, case, max(1, n // parts), seed * 1000 + k))
+            else:
+                jobs.append((prop, t.name, case, timeout_ms, known, None))
+    if not jobs and not bjobs:
         print('CHECKER-ERROR property=%s no tasks' % prop)
         return 3
     ctx = multiprocessing.get_context('fork')
-    with ctx.Pool(min(args.jobs, len(jobs))) as pool:
-        results = pool.map(run_job, jobs, chunksize=1)
+    results, bresults = [], []
+    with ctx.Pool(min(args.jobs, max(1, len(jobs) + len(bjobs)))) as pool:
+        ar = pool.map_async(run_job, jobs, chunksize=1) if jobs else None
+        br = pool.map_async(run_bounded, bjobs, chunksize=1) if bjobs else None
+        results = ar.get() if ar else []
+        bresults = br.get() if br else []
 
     # --- aggregate
     errors = [r for r in results if r.get('error')]
@@ -222,6 +253,34 @@ def main(argv=None):
             json.dump(rec, f, indent=1, default=str)
         violations.append((fn, confirmed, r['task'], o['label'], o.get('model')))
 
+    # --- bounded stand-ins (never counted as proved)
+    bounded_parts = []
+    for t in mod.TASKS:
+        rs = [r for r in bresults if r['task'] == t.name]
+        if not rs:
+            continue
+        part = {'task': t.name, 'bounded': True, 'scope': t.scope,
+                'evaluations': sum(r.get('evaluations', 0) for r in rs),
+                'distinct_inputs': sum(r.get('distinct', 0) for r in rs),
+                'obligations_evaluated': sum(r.get('obligations_evaluated', 0) for r in rs),
+                'failures': sum(len(r.get('failures', [])) for r in rs),
+                'samples': [s_ for r in rs for s_ in r.get('samples', [])][:3]}
+        bounded_parts.append(part)
+        for r in rs:
+            if r.get('error'):
+                errors.append({'task': t.name, 'case': r.get('case'), 'error': r['error']})
+            for f in r.get('failures', [])[:2]:
+                os.makedirs(rdir, exist_ok=True)
+                fn = os.path.join(rdir, '%s__%s.json' % (
+                    t.name.replace('/', '_').replace(' ', '_'), f['label'].replace('/', '_').replace(' ', '_')))
+                rec = {'property': prop, 'task': t.name, 'case': r['case'], 'obligation': f['label'],
+                       'inputs': f['inputs'], 'confirmed_on_real_code': True, 'bounded': True,
+                       'repo': repo_root(), 'how_to_replay': 'cd /verif && ./check --replay %s' % fn}
+                with open(fn, 'w') as fh:
+                    json.dump(rec, fh, indent=1, default=str)
+                if not any(v[0] == fn for v in violations):
+                    violations.append((fn, True, t.name, f['label'], f['inputs']))
+
     wall = time.time() - t0
     status = 0
     for line in known_lines:
@@ -246,9 +305,12 @@ def main(argv=None):
         for r, u in undecided_paths[:20]:
             print('UNDECIDED %s %s %s' % (r['task'], r['case'], u[1][:300]))
         status = 2
-    if obligations == 0 and status == 0:
+    if obligations == 0 and status == 0 and jobs:
         print('CHECKER-ERROR zero obligations')
         status = 3
+    for b in bounded_parts:
+        print('bounded (not proved): %s: %d sampled inputs, %d obligations evaluated natively, %d failures [%s]' % (
+            b['task'], b['evaluations'], b['obligations_evaluated'], b['failures'], b['scope']))
 
     print('%s tier=%s: %d obligations, %d discharged, %d refuted, %d undecided, %d jobs, '
           '%d functions, %.1fs' % (prop, tier, obligations, discharged, len(refuted),
@@ -268,7 +330,7 @@ def main(argv=None):
                     samples.append({'task': r['task'], 'case': r['case'], **s})
         if not samples:
             samples = [{'obligation': k, **v} for k, v in list(sorted(labels.items()))[:5]]
-        bounded = getattr(mod, 'BOUNDED', None)
+        bounded = bounded_parts or None
         ev = {
             'property_id': prop,
             'tier': tier,
